@@ -231,6 +231,23 @@ def _check_fragments_generate_sinks(ctx, fi, node, it):
         if isinstance(st, ast.Call) and isinstance(st.func, ast.Attribute) and st.func.attr in ("append", "extend", "insert"):
             if norm(st.func.value) not in allowed_sinks:
                 return f"loop appends to {norm(st.func.value)}, an untriaged ordered sink"
+    # (3b) nothing in the loop may depend on what earlier iterations produced (iteration order is arbitrary)
+    acc = set()
+    for st in ast.walk(node):
+        if isinstance(st, ast.Call) and isinstance(st.func, ast.Attribute) and st.func.attr in ("append", "extend", "add", "update", "insert"):
+            acc.add(norm(st.func.value))
+        if isinstance(st, ast.Assign) and isinstance(st.targets[0], ast.Subscript):
+            acc.add(norm(st.targets[0].value))
+    for st in ast.walk(node):
+        tests = []
+        if isinstance(st, (ast.If, ast.IfExp)):
+            tests.append(st.test)
+        if isinstance(st, (ast.ListComp, ast.GeneratorExp, ast.SetComp, ast.DictComp)):
+            tests += [i for g in st.generators for i in g.ifs]
+        for t in tests:
+            for cmp_ in ast.walk(t):
+                if isinstance(cmp_, ast.Compare) and any(isinstance(op, (ast.In, ast.NotIn)) for op in cmp_.ops) and norm(cmp_.comparators[0]) in acc:
+                    return f"`{norm(t)[:70]}` tests membership in `{norm(cmp_.comparators[0])}`, which is filled by earlier iterations of the same loop: the outcome depends on the (arbitrary) iteration order"
     # (4) the public names only become import names of the package __init__ and a sorted __all__
     init = repo.func("client_generators.init_file:InitFileGenerator.generate")
     srt = [c for c in ast.walk(init.node) if isinstance(c, ast.Call) and isinstance(c.func, ast.Name) and c.func.id == "sorted"]
